@@ -94,6 +94,8 @@ def run(tier: str) -> dict:
                     plan.append((G.prelude_for(e), grp))
             plan += main_plan
             for mi, (prelude, grp) in enumerate(plan):
+                if rt.HANGS[0] >= 3:
+                    break
                 src = prelude + "\n".join(s for _, _, s in grp)
                 recs, fo = fa_lib.analyse_module(scratch / f"m{mi}.py", src)
                 if fo[0] != "ok":
